@@ -55,6 +55,9 @@ func buildTracked(n Node, path string, all *[]*mStack) (any, *mStack) {
 			c.SetExpression(v)
 			ms = m
 		}
+		if n.Amb&AmbErr != 0 {
+			c.SetErr(errAmbient) // an error recorded earlier on the Condition: no say in what Defrag visits
+		}
 		return wrapCond(c, n.Wrap), ms
 	}
 	s := newStackOfKind(n.Kind, n.Cap)
@@ -475,9 +478,15 @@ func genC19(t *rapid.T, tier Tier) C19Case {
 				n.Elems = append(n.Elems, genStack(depth+1))
 			case r < nilw+13 && depth < 2:
 				e := genStack(depth + 1)
-				n.Elems = append(n.Elems, Node{T: "cond", KW: "k", Op: OpEq(), Expr: &e, Wrap: rapid.SampledFrom([]int{0, 0, WrapAlias}).Draw(t, "cwrap")})
+				cn := Node{T: "cond", KW: "k", Op: OpEq(), Expr: &e, Wrap: rapid.SampledFrom([]int{0, 0, WrapAlias}).Draw(t, "cwrap")}
+				if rapid.IntRange(0, 2).Draw(t, "cond-err") == 0 {
+					cn.Amb = AmbErr
+				}
+				n.Elems = append(n.Elems, cn)
 			case r >= 96:
 				// a typed nil pointer is a stored value, not a gap
+				// (hollow values of the library's own types - zero Stack, nil *Stack - are left to C08/C20: the literal
+				// port of the shipped algorithm that recognises the listed finding does not model how they count for IsNesting)
 				n.Elems = append(n.Elems, LeafN(Val{K: "tnil", Depth: rapid.IntRange(1, 3).Draw(t, "tnil")}))
 			default:
 				tagN++
